@@ -12,12 +12,17 @@
   only lists copies, under the same name, of a sub-list of those members (`healLoop_mem`, the state after the round as source).
   Non-vacuity: `hideName` hides the FIELD `Dog.name` and nothing else; the result still registers `Dog`, with no field
   (`visibility_field_witness`).
-  NOT covered here (stated, open): directives with `is_directive_visible = false` and the fields a drop/wrap schema directive
-  drops are removed from the registry / the field lists by the same mechanism (`onDirective` → `None`, `onField` → `None`);
-  the corresponding theorems are not proved. The harness's oracle checks all four on the real code (`hidden-reachable:*`).
+  * `visibility_hides_directives` (FULL): every directive object the result registers has `is_directive_visible(name)`
+    (`visibility_directive_witness`: `hideLim` removes the directive `lim`).
+  * `directive_drops_fields` (FULL): after a drop/wrap schema-directive visitor (healing included) no registered type lists a
+    field the directive dropped (`MembersNamed (fun t f => !drop t f)`).
+  `visitor_members_named` is the generic statement behind the field-level theorems (any visitor whose type-level hook returns
+  objects listing accepted members only: `NamingHook`). Arguments cannot be hidden individually by the modelled visitors (they
+  disappear with their type: `visibility_hides_type` + closedness).
 -/
 import PyGqlModel.Lemmas.HeapCamelView
 import PyGqlModel.Props.C14_members
+import PyGqlModel.Props.C14_order
 
 set_option linter.unusedSimpArgs false
 set_option linter.unusedVariables false
@@ -237,9 +242,13 @@ theorem onType_vis_named (p : VisP) (reg : List (String × Addr)) (h : Heap) (a 
 /-! ### the round, the healing that follows, `on_schema` -/
 
 /-- the type object exists and lists visible members only -/
-def VisGood (p : VisP) (h : Heap) (a : Addr) : Prop := MembersNamed p.fieldVis p.inputVis h a ∧ ∃ t, h.readType a = some t
+def Good (Q QI : String → String → Bool) (h : Heap) (a : Addr) : Prop := MembersNamed Q QI h a ∧ ∃ t, h.readType a = some t
 
-theorem VisGood.keep {p : VisP} {h h' : Heap} (st : StepImp chkT h h') {a : Addr} (g : VisGood p h a) : VisGood p h' a := by
+/-- what a visitor's type-level hook guarantees about the object it returns -/
+def NamingHook (v : Visitor) (Q QI : String → String → Bool) : Prop :=
+  ∀ (reg : List (String × Addr)) (h : Heap) (a : Addr), TypeReadable h a → ∀ a', (onType v reg h a).2 = some a' → Good Q QI (onType v reg h a).1 a'
+
+theorem Good.keep {Q QI : String → String → Bool} {h h' : Heap} (st : StepImp chkT h h') {a : Addr} (g : Good Q QI h a) : Good Q QI h' a := by
   obtain ⟨m, t, ht⟩ := g
   obtain ⟨t', ht', _⟩ := readType_keep st a t ht
   exact ⟨m.keep st ht, t', ht'⟩
@@ -279,11 +288,11 @@ theorem TypeReadable.keepStep {h h' : Heap} (st : StepImp chkT h h') {a : Addr} 
   | arg _ => simp [SameHead] at hd
   | dir _ => simp [SameHead] at hd
 
-theorem visitTypes_vis_named (p : VisP) (reg : List (String × Addr)) :
+theorem visitTypes_named (v : Visitor) (Q QI : String → String → Bool) (hook : NamingHook v Q QI) (reg : List (String × Addr)) :
     ∀ (l : List (String × Addr)) (h : Heap), (∀ e, e ∈ l → isProtected e.1 = false → TypeReadable h e.2) →
-      (∀ x, x ∈ (visitTypes (.vis p) reg h l).2 → ∀ a', x.2 = some a' → VisGood p (visitTypes (.vis p) reg h l).1 a') ∧
+      (∀ x, x ∈ (visitTypes v reg h l).2 → ∀ a', x.2 = some a' → Good Q QI (visitTypes v reg h l).1 a') ∧
       (∀ e, e ∈ l → isProtected e.1 = false →
-        (∃ x, x ∈ (visitTypes (.vis p) reg h l).2 ∧ x.1 = e.1) ∨ VisGood p (visitTypes (.vis p) reg h l).1 e.2) := by
+        (∃ x, x ∈ (visitTypes v reg h l).2 ∧ x.1 = e.1) ∨ Good Q QI (visitTypes v reg h l).1 e.2) := by
   intro l
   induction l with
   | nil => intro h _; exact ⟨by simp [visitTypes], by simp⟩
@@ -301,11 +310,11 @@ theorem visitTypes_vis_named (p : VisP) (reg : List (String × Addr)) :
       · exact f2 e he hnp
     · have hnp : isProtected n = false := by simpa using hp
       simp only [visitTypes, hnp, Bool.false_eq_true, if_false]
-      have st0 := onType_step (.vis p) reg h a chkT (compat_true _ reg)
-      have strest := visitTypes_step (.vis p) reg rest (onType (.vis p) reg h a).1 chkT (compat_true _ reg)
-      obtain ⟨f1, f2⟩ := ih (onType (.vis p) reg h a).1 (fun e he hq => TypeReadable.keepStep st0 (hin e (by simp [he]) hq))
-      have hhead : ∀ a', (onType (.vis p) reg h a).2 = some a' → VisGood p (visitTypes (.vis p) reg (onType (.vis p) reg h a).1 rest).1 a' :=
-        fun a' ea => VisGood.keep strest (onType_vis_named p reg h a (hin (n, a) (by simp) hnp) a' ea)
+      have st0 := onType_step v reg h a chkT (compat_true _ reg)
+      have strest := visitTypes_step v reg rest (onType v reg h a).1 chkT (compat_true _ reg)
+      obtain ⟨f1, f2⟩ := ih (onType v reg h a).1 (fun e he hq => TypeReadable.keepStep st0 (hin e (by simp [he]) hq))
+      have hhead : ∀ a', (onType v reg h a).2 = some a' → Good Q QI (visitTypes v reg (onType v reg h a).1 rest).1 a' :=
+        fun a' ea => Good.keep strest (hook reg h a (hin (n, a) (by simp) hnp) a' ea)
       refine ⟨?_, ?_⟩
       · intro x hx a' ea
         split at hx
@@ -318,10 +327,10 @@ theorem visitTypes_vis_named (p : VisP) (reg : List (String × Addr)) :
         simp only [List.mem_cons] at he
         rcases he with rfl | he
         · split
-          · exact Or.inl ⟨(n, (onType (.vis p) reg h a).2), List.mem_cons_self, rfl⟩
+          · exact Or.inl ⟨(n, (onType v reg h a).2), List.mem_cons_self, rfl⟩
           · rename_i hsame
             right
-            have hsm : (onType (.vis p) reg h a).2 = some a := by simpa using hsame
+            have hsm : (onType v reg h a).2 = some a := by simpa using hsame
             exact hhead a hsm
         · rcases f2 e he hq with ⟨x, hx, hxe⟩ | h2
           · left
@@ -343,8 +352,8 @@ private theorem sub2_mem_right {α β : Type} {R : α → β → Prop} {l1 : Lis
     · obtain ⟨a, ha, r'⟩ := ih b hb; exact ⟨a, by simp [ha], r'⟩
 
 /-- a type object that is a copy (`TRel`, names kept) of one that lists visible members only lists visible members only -/
-theorem visGood_of_trel {p : VisP} {h0 h : Heap} {t0 : TypeO} {a0 a' : Addr} (ht0 : h0.readType a0 = some t0)
-    (g : MembersNamed p.fieldVis p.inputVis h0 a0) (r : TRel id h0 h t0 a') : MembersNamed p.fieldVis p.inputVis h a' := by
+theorem visGood_of_trel {Q QI : String → String → Bool} {h0 h : Heap} {t0 : TypeO} {a0 a' : Addr} (ht0 : h0.readType a0 = some t0)
+    (g : MembersNamed Q QI h0 a0) (r : TRel id h0 h t0 a') : MembersNamed Q QI h a' := by
   obtain ⟨t', ht', hat, hm⟩ := r
   have hkind := hat.kind
   have hname : t'.name = t0.name := by simp only [TAttr, SameHead] at hat; exact hat.2.1
@@ -397,37 +406,39 @@ theorem memOrigin_refl {chk : Ref → Bool} {h : Heap} {s : Schema} (w : WFs chk
   · exact hfields _ hr
   · exact hargs _ hr
 
-/-- FULL (see the header): hidden fields and input fields are in no member list of the result -/
-theorem visibility_hides_members (cfg : Cfg) (hacc : cfg.accumulateBusted = true) (fuel : Nat) (p : VisP) (s : Schema) (h h' : Heap) (s' : Schema)
-    (hc : closedB h s = true) (hw : wfB h s = true) (e : onSchema cfg fuel (.vis p) s h = some (h', s')) :
-    ∀ e', e' ∈ s'.types → MembersNamed p.fieldVis p.inputVis h' e'.2 := by
+/-- generic: a visitor whose type-level hook returns objects listing `Q` / `QI`-members only (and that does not wrap: the healing
+    that follows lists copies under the same names) leaves a schema in which EVERY registered type lists such members only -/
+theorem visitor_members_named (cfg : Cfg) (hacc : cfg.accumulateBusted = true) (fuel : Nat) (v : Visitor) (Q QI : String → String → Bool)
+    (hook : NamingHook v Q QI) (s : Schema) (h h' : Heap) (s' : Schema)
+    (hc : closedB h s = true) (hw : wfB h s = true) (e : onSchema cfg fuel v s h = some (h', s')) :
+    ∀ e', e' ∈ s'.types → MembersNamed Q QI h' e'.2 := by
   have w := wfs_of_closedB hc hw
   have hread : ∀ e, e ∈ s.types → TypeReadable h e.2 := by
     intro e he
     obtain ⟨t, ht, _⟩ := (typeShape_iff _ h e.2).mp (w.types e he)
     exact ⟨t, ht, membersReadable_of_shape _ h e.2 t ht (w.types e he)⟩
-  obtain ⟨f1, f2⟩ := visitTypes_vis_named p s.types s.types h (fun e he _ => hread e he)
-  have stD := visitDirs_step (.vis p) s.types s.dirs (visitTypes (.vis p) s.types h s.types).1 chkT (compat_true _ s.types)
-  have stT := visitTypes_step (.vis p) s.types s.types h chkT (compat_true _ s.types)
+  obtain ⟨f1, f2⟩ := visitTypes_named v Q QI hook s.types s.types h (fun e he _ => hread e he)
+  have stD := visitDirs_step v s.types s.dirs (visitTypes v s.types h s.types).1 chkT (compat_true _ s.types)
+  have stT := visitTypes_step v s.types s.types h chkT (compat_true _ s.types)
   -- after the round: every entry lists visible members only, or is a specified scalar
-  have hP : ∀ e2, e2 ∈ (replaceCore cfg s (visitAll (.vis p) s h).2.1 (visitAll (.vis p) s h).2.2).1.types →
-      isProtected e2.1 = true ∨ VisGood p (visitAll (.vis p) s h).1 e2.2 := by
+  have hP : ∀ e2, e2 ∈ (replaceCore cfg s (visitAll v s h).2.1 (visitAll v s h).2.2).1.types →
+      isProtected e2.1 = true ∨ Good Q QI (visitAll v s h).1 e2.2 := by
     simp only [replaceCore, visitAll]
     apply replaceTypes_pred cfg (fun e2 => isProtected e2.1 = true ∨
-      VisGood p (visitDirs (.vis p) s.types (visitTypes (.vis p) s.types h s.types).1 s.dirs).1 e2.2)
+      Good Q QI (visitDirs v s.types (visitTypes v s.types h s.types).1 s.dirs).1 e2.2)
     · intro x hx a' ea
-      exact Or.inr (VisGood.keep stD (f1 x hx a' ea))
+      exact Or.inr (Good.keep stD (f1 x hx a' ea))
     · intro e0 he0
       by_cases hp : isProtected e0.1 = true
       · exact Or.inl (Or.inl hp)
       · have hnp : isProtected e0.1 = false := by simpa using hp
         rcases f2 e0 he0 hnp with ⟨x, hx, hxe⟩ | hg
         · exact Or.inr (List.mem_map.mpr ⟨x, hx, hxe⟩)
-        · exact Or.inl (Or.inr (VisGood.keep stD hg))
-  have w2 := round_wf cfg (.vis p) s h (refOK s.types) (compat_refOK _ _) w
+        · exact Or.inl (Or.inr (Good.keep stD hg))
+  have w2 := round_wf cfg v s h (refOK s.types) (compat_refOK _ _) w
   -- the protected entries are scalars: nothing to list
   have hprot : ∀ (hh : Heap) (ss : Schema), WFs (fun _ => true) hh ss → ∀ e2, e2 ∈ ss.types → isProtected e2.1 = true →
-      MembersNamed p.fieldVis p.inputVis hh e2.2 := by
+      MembersNamed Q QI hh e2.2 := by
     intro hh ss ws e2 he2 hp t ht
     have hpl := ws.prot e2 he2
     simp only [protLeaf, hp, Bool.not_true, Bool.false_or, ht, beq_iff_eq] at hpl
@@ -449,6 +460,12 @@ theorem visibility_hides_members (cfg : Cfg) (hacc : cfg.accumulateBusted = true
     rcases hP e' he' with hp | hg
     · exact hprot _ _ w2 e' he' hp
     · exact hg.1
+
+/-- FULL (see the header): hidden fields and input fields are in no member list of the result -/
+theorem visibility_hides_members (cfg : Cfg) (hacc : cfg.accumulateBusted = true) (fuel : Nat) (p : VisP) (s : Schema) (h h' : Heap) (s' : Schema)
+    (hc : closedB h s = true) (hw : wfB h s = true) (e : onSchema cfg fuel (.vis p) s h = some (h', s')) :
+    ∀ e', e' ∈ s'.types → MembersNamed p.fieldVis p.inputVis h' e'.2 :=
+  visitor_members_named cfg hacc fuel (.vis p) p.fieldVis p.inputVis (fun reg h a r a' ea => onType_vis_named p reg h a r a' ea) s h h' s' hc hw e
 
 /-- … for `transform_schema(source, VisibilitySchemaTransform())` -/
 theorem visibility_hides_members_transform (cfg : Cfg) (hd : cfg.deepClone = true) (hk : cfg.keepAllTypes = true) (hacc : cfg.accumulateBusted = true)
@@ -478,5 +495,287 @@ theorem visibility_field_witness :
       ((lookup r.2.types "Dog").bind fun a => (r.1.readType a).map fun t => t.fields.length,
        (lookup r.2.types "Pet").bind fun a => (r.1.readType a).map fun t => t.fields.length)) = some (some 0, some 1)) := by
   decide
+
+/-! ### fields dropped by a schema directive -/
+
+theorem onArgument_sdir_id (d : String → String → Bool) (w : String → String → Option Nat) (reg : List (String × Addr)) (h : Heap) (a : Addr) :
+    onArgument (.sdir d w) reg h a = (h, some a) := by
+  simp only [onArgument]
+  split <;> rfl
+
+theorem onInputField_sdir_id (d : String → String → Bool) (w : String → String → Option Nat) (reg : List (String × Addr)) (h : Heap) (a : Addr) :
+    onInputField (.sdir d w) reg h a = (h, some a) := by
+  simp only [onInputField]
+  split <;> rfl
+
+/-- `on_field` of the drop/wrap directive visitor: what it returns is a field object, under the same name, that is not dropped -/
+theorem onField_sdir_named (d : String → String → Bool) (w : String → String → Option Nat) (reg : List (String × Addr)) (tn : String)
+    (h : Heap) (c : Addr) (f : FieldO) (hf : h.readField c = some f) :
+    ∀ c', (onField (.sdir d w) reg tn h c).2 = some c' →
+      ∃ f', (onField (.sdir d w) reg tn h c).1.readField c' = some f' ∧ (!d tn f'.name) = true := by
+  intro c' e
+  simp only [onField, hf] at e ⊢
+  cases hd : d tn f.name with
+  | true => simp [hd] at e
+  | false =>
+    simp only [hd, Bool.false_eq_true, if_false] at e ⊢
+    cases hw : w tn f.name with
+    | some id =>
+      simp only [hw, onFieldBase, mapFilter_id (onArgument_sdir_id d w reg), bne_self_eq_false, Bool.false_eq_true, if_false,
+        Option.some.injEq] at e ⊢
+      subst e
+      exact ⟨_, readField_alloc_new _ _, by simp [hd]⟩
+    | none =>
+      simp only [hw, onFieldBase, mapFilter_id (onArgument_sdir_id d w reg), bne_self_eq_false, Bool.false_eq_true, if_false,
+        Option.some.injEq] at e ⊢
+      subst e
+      exact ⟨f, hf, by simp [hd]⟩
+
+theorem mapFilter_fields_good {f : Heap → Addr → Heap × Option Addr} (G : FieldO → Prop)
+    (hstep : ∀ h a, StepImp chkT h (f h a).1)
+    (hest : ∀ h a fl, h.readField a = some fl → ∀ a', (f h a).2 = some a' → ∃ f', (f h a).1.readField a' = some f' ∧ G f')
+    (hG : ∀ f f' : FieldO, f'.name = f.name → G f → G f') :
+    ∀ (as : List Addr) (h : Heap), (∀ a, a ∈ as → ∃ fl, h.readField a = some fl) →
+      StepImp chkT h (mapFilter f h as).1 ∧ ∀ c, c ∈ (mapFilter f h as).2 → ∃ f', (mapFilter f h as).1.readField c = some f' ∧ G f' := by
+  have fieldKeep : ∀ (h h' : Heap), StepImp chkT h h' → ∀ c fl, h.readField c = some fl → ∃ f', h'.readField c = some f' ∧ f'.name = fl.name := by
+    intro h h' st c fl hfl
+    obtain ⟨o', hr', hd, _, _⟩ := st c _ (readField_read hfl)
+    cases o' with
+    | field f' => simp only [SameHead] at hd; exact ⟨f', readField_of_read hr', hd.1⟩
+    | type _ => simp [SameHead] at hd
+    | arg _ => simp [SameHead] at hd
+    | dir _ => simp [SameHead] at hd
+  intro as
+  induction as with
+  | nil => intro h _; exact ⟨StepImp.refl chkT h, by simp [mapFilter]⟩
+  | cons a as ih =>
+    intro h hall
+    obtain ⟨fl, hfl⟩ := hall a (by simp)
+    have st1 := hstep h a
+    obtain ⟨st2, g2⟩ := ih (f h a).1 (fun x hx => by
+      obtain ⟨fx, hfx⟩ := hall x (by simp [hx])
+      obtain ⟨f', hf', _⟩ := fieldKeep _ _ st1 x fx hfx
+      exact ⟨f', hf'⟩)
+    simp only [mapFilter]
+    refine ⟨st1.trans st2, ?_⟩
+    intro c hc
+    cases hr : (f h a).2 with
+    | none => rw [hr] at hc; exact g2 c hc
+    | some a' =>
+      rw [hr] at hc
+      simp only [List.mem_cons] at hc
+      rcases hc with rfl | hc
+      · obtain ⟨f', hf', hg⟩ := hest h a fl hfl c hr
+        obtain ⟨f'', hf'', hn⟩ := fieldKeep _ _ st2 c f' hf'
+        exact ⟨f'', hf'', hG f' f'' hn hg⟩
+      · exact g2 c hc
+
+theorem onType_sdir_named (d : String → String → Bool) (w : String → String → Option Nat) :
+    NamingHook (.sdir d w) (fun t f => !d t f) (fun _ _ => true) := by
+  intro reg h a r a' e
+  obtain ⟨t, ht, hm⟩ := r
+  simp only [onType, ht] at e ⊢
+  simp only [MembersReadable] at hm
+  have compositeCase : (t.kind = Kind.object ∨ t.kind = Kind.interface) → ∀ a', (onComposite (.sdir d w) reg h a t).2 = some a' →
+      Good (fun t f => !d t f) (fun _ _ => true) (onComposite (.sdir d w) reg h a t).1 a' := by
+    intro hk a' e
+    have hm' : ∀ c, c ∈ t.fields → ∃ fl, h.readField c = some fl := by
+      intro c hc
+      have : ∀ a, a ∈ t.fields → ∃ f, h.readField a = some f ∧ ∀ x, x ∈ f.args → ∃ g, h.readArg x = some g := by
+        rcases hk with hk | hk <;> simpa [hk] using hm
+      obtain ⟨fl, hfl, _⟩ := this c hc
+      exact ⟨fl, hfl⟩
+    obtain ⟨st, good⟩ := mapFilter_fields_good (f := onField (.sdir d w) reg t.name) (fun fl => (!d t.name fl.name) = true)
+      (fun h a => onField_stepT _ reg t.name h a)
+      (fun h a fl hfl a' ea => onField_sdir_named d w reg t.name h a fl hfl a' ea)
+      (fun f f' hn hg => by rw [hn]; exact hg) t.fields h hm'
+    simp only [onComposite, compositeRest, rebuiltOrSame] at e ⊢
+    split at e
+    · rename_i hne
+      simp only [hne, if_true] at e ⊢
+      cases e
+      have hr := readType_alloc_new (mapFilter (onField (.sdir d w) reg t.name) h t.fields).1 { t with fields := (mapFilter (onField (.sdir d w) reg t.name) h t.fields).2 }
+      exact ⟨named_of_step (step_alloc chkT _ _) hr t.name rfl (fun _ c hc => good c hc)
+        (fun hki => by rcases hk with hk | hk <;> simp [hk] at hki), _, hr⟩
+    · rename_i hne
+      have heq := bne_false_eq hne
+      simp only [hne, if_false] at e ⊢
+      cases e
+      obtain ⟨o', hr', hd', hk', _⟩ := st a _ (readType_read ht)
+      cases o' with
+      | type t' =>
+        simp only [SameHead] at hd'
+        have hsub : ∀ c, c ∈ t'.fields → c ∈ (mapFilter (onField (.sdir d w) reg t.name) h t.fields).2 := by
+          intro c hc
+          rw [heq]
+          exact List.Sublist.subset (by simpa [kids] using hk') hc
+        exact ⟨named_of_step (StepImp.refl chkT _) (readType_of_read hr') t.name hd'.2.1 (fun _ c hc => good c (hsub c hc))
+          (fun hki => by rw [hd'.1] at hki; rcases hk with hk | hk <;> simp [hk] at hki), _, readType_of_read hr'⟩
+      | field _ => simp [SameHead] at hd'
+      | arg _ => simp [SameHead] at hd'
+      | dir _ => simp [SameHead] at hd'
+  have trivialCase : t.kind ≠ Kind.object → t.kind ≠ Kind.interface → t.kind ≠ Kind.input → Good (fun t f => !d t f) (fun _ _ => true) h a :=
+    fun h1 h2 h3 => ⟨named_of_step (StepImp.refl chkT h) ht t.name rfl (fun hk' => by rcases hk' with hk' | hk' <;> contradiction)
+      (fun hk' => absurd hk' h3), _, ht⟩
+  cases hk : t.kind <;> simp only [hk] at hm e ⊢
+  · exact compositeCase (Or.inl hk) a' e
+  · exact compositeCase (Or.inr hk) a' e
+  · simp only [onUnion] at e ⊢; cases e; exact trivialCase (by simp [hk]) (by simp [hk]) (by simp [hk])
+  · simp only [onLeaf] at e ⊢; cases e; exact trivialCase (by simp [hk]) (by simp [hk]) (by simp [hk])
+  · -- input object: untouched
+    simp only [onInputObject, inputRest, mapFilter_id (onInputField_sdir_id d w reg), rebuiltOrSame, bne_self_eq_false, Bool.false_eq_true,
+      if_false] at e ⊢
+    cases e
+    exact ⟨named_of_step (StepImp.refl chkT h) ht t.name rfl (fun hk' => by rcases hk' with hk' | hk' <;> simp [hk] at hk')
+      (fun _ c hc => by obtain ⟨g, hg⟩ := hm c hc; exact ⟨g, hg, rfl⟩), _, ht⟩
+  · simp only [onLeaf] at e ⊢; cases e; exact trivialCase (by simp [hk]) (by simp [hk]) (by simp [hk])
+
+/-- FULL: after a drop/wrap schema-directive visitor (healing included) no registered type lists a field the directive dropped -/
+theorem directive_drops_fields (cfg : Cfg) (hacc : cfg.accumulateBusted = true) (fuel : Nat) (d : String → String → Bool)
+    (w : String → String → Option Nat) (s : Schema) (h h' : Heap) (s' : Schema)
+    (hc : closedB h s = true) (hw : wfB h s = true) (e : onSchema cfg fuel (.sdir d w) s h = some (h', s')) :
+    ∀ e', e' ∈ s'.types → MembersNamed (fun t f => !d t f) (fun _ _ => true) h' e'.2 :=
+  visitor_members_named cfg hacc fuel (.sdir d w) _ _ (onType_sdir_named d w) s h h' s' hc hw e
+
+/-! ### hidden directives -/
+
+/-- the directive object exists and `N` accepts its name -/
+def DirNamed (N : String → Bool) (h : Heap) (a : Addr) : Prop := ∃ d, h.readDir a = some d ∧ N d.name = true
+
+theorem DirNamed.keep {N : String → Bool} {h h' : Heap} (st : StepImp chkT h h') {a : Addr} (g : DirNamed N h a) : DirNamed N h' a := by
+  obtain ⟨d, hd, hn⟩ := g
+  obtain ⟨o', hr', hh, _, _⟩ := st a _ (readDir_read hd)
+  cases o' with
+  | dir d' => simp only [SameHead] at hh; exact ⟨d', readDir_of_read hr', by rw [hh.1]; exact hn⟩
+  | type _ => simp [SameHead] at hh
+  | field _ => simp [SameHead] at hh
+  | arg _ => simp [SameHead] at hh
+
+/-- `on_directive` of any visitor: what it returns is a directive object under the same name, and the visitor does not hide it -/
+theorem onDirective_named (v : Visitor) (N : String → Bool) (reg : List (String × Addr)) (h : Heap) (a : Addr) (g : DirNamed N h a) :
+    ∀ a', (onDirective v reg h a).2 = some a' → DirNamed (fun nm => N nm && !dirHidden v nm) (onDirective v reg h a).1 a' := by
+  obtain ⟨d, hd, hn⟩ := g
+  intro a' e
+  simp only [onDirective, hd] at e ⊢
+  cases hh : dirHidden v d.name with
+  | true => simp [hh] at e
+  | false =>
+    simp only [hh, Bool.false_eq_true, if_false] at e ⊢
+    have hstep := mapFilter_step (onArgument_step v reg) d.args h chkT (compat_true v reg)
+    split at e
+    · rename_i hne
+      simp only [hne, if_true] at e ⊢
+      cases e
+      exact ⟨_, readDir_alloc_new _ _, by simp [hn, hh]⟩
+    · rename_i hne
+      simp only [hne, if_false] at e ⊢
+      cases e
+      obtain ⟨d', hd', hn'⟩ := DirNamed.keep (N := fun nm => N nm && !dirHidden v nm) hstep ⟨d, hd, by simp [hn, hh]⟩
+      exact ⟨d', hd', hn'⟩
+
+theorem visitDirs_named (v : Visitor) (N : String → Bool) (reg : List (String × Addr)) :
+    ∀ (l : List (String × Addr)) (h : Heap), (∀ e, e ∈ l → DirNamed N h e.2) →
+      (∀ x, x ∈ (visitDirs v reg h l).2 → ∀ a', x.2 = some a' → DirNamed (fun nm => N nm && !dirHidden v nm) (visitDirs v reg h l).1 a') ∧
+      (∀ e, e ∈ l → (∃ x, x ∈ (visitDirs v reg h l).2 ∧ x.1 = e.1) ∨ DirNamed (fun nm => N nm && !dirHidden v nm) (visitDirs v reg h l).1 e.2) := by
+  intro l
+  induction l with
+  | nil => intro h _; exact ⟨by simp [visitDirs], by simp⟩
+  | cons e0 rest ih =>
+    intro h hin
+    obtain ⟨n, a⟩ := e0
+    have st0 := onDirective_step v reg h a chkT (compat_true v reg)
+    have strest := visitDirs_step v reg rest (onDirective v reg h a).1 chkT (compat_true v reg)
+    obtain ⟨f1, f2⟩ := ih (onDirective v reg h a).1 (fun e he => DirNamed.keep st0 (hin e (by simp [he])))
+    have hhead : ∀ a', (onDirective v reg h a).2 = some a' →
+        DirNamed (fun nm => N nm && !dirHidden v nm) (visitDirs v reg (onDirective v reg h a).1 rest).1 a' :=
+      fun a' ea => DirNamed.keep strest (onDirective_named v N reg h a (hin (n, a) (by simp)) a' ea)
+    simp only [visitDirs]
+    refine ⟨?_, ?_⟩
+    · intro x hx a' ea
+      split at hx
+      · simp only [List.mem_cons] at hx
+        rcases hx with rfl | hx
+        · exact hhead a' ea
+        · exact f1 x hx a' ea
+      · exact f1 x hx a' ea
+    · intro e he
+      simp only [List.mem_cons] at he
+      rcases he with rfl | he
+      · split
+        · exact Or.inl ⟨(n, (onDirective v reg h a).2), List.mem_cons_self, rfl⟩
+        · rename_i hsame
+          right
+          have hsm : (onDirective v reg h a).2 = some a := by simpa using hsame
+          exact hhead a hsm
+      · rcases f2 e he with ⟨x, hx, hxe⟩ | h2
+        · left
+          split
+          · exact ⟨x, by simp [hx], hxe⟩
+          · exact ⟨x, hx, hxe⟩
+        · exact Or.inr h2
+
+/-- one `on_schema` round: every directive the schema registers afterwards is named by `N` and not hidden by the visitor -/
+theorem round_dirs_named (cfg : Cfg) (v : Visitor) (N : String → Bool) (s : Schema) (h : Heap) (hin : ∀ e, e ∈ s.dirs → DirNamed N h e.2) :
+    ∀ e, e ∈ (replaceCore cfg s (visitAll v s h).2.1 (visitAll v s h).2.2).1.dirs →
+      DirNamed (fun nm => N nm && !dirHidden v nm) (visitAll v s h).1 e.2 := by
+  have stT := visitTypes_step v s.types s.types h chkT (compat_true v s.types)
+  obtain ⟨f1, f2⟩ := visitDirs_named v N s.types s.dirs (visitTypes v s.types h s.types).1 (fun e he => DirNamed.keep stT (hin e he))
+  simp only [replaceCore, visitAll]
+  apply replaceDirs_pred (fun e => DirNamed (fun nm => N nm && !dirHidden v nm) (visitDirs v s.types (visitTypes v s.types h s.types).1 s.dirs).1 e.2)
+  · intro x hx a' ea
+    exact f1 x hx a' ea
+  · intro e he
+    rcases f2 e he with ⟨x, hx, hxe⟩ | hg
+    · exact Or.inr (List.mem_map.mpr ⟨x, hx, hxe⟩)
+    · exact Or.inl hg
+
+theorem healLoop_dirs_named (cfg : Cfg) (N : String → Bool) : ∀ (fuel : Nat) (s : Schema) (h h' : Heap) (s' : Schema),
+    (∀ e, e ∈ s.dirs → DirNamed N h e.2) → healLoop cfg fuel s h = some (h', s') → ∀ e, e ∈ s'.dirs → DirNamed N h' e.2 := by
+  intro fuel
+  induction fuel with
+  | zero => intro s h h' s' _ e; simp [healLoop] at e
+  | succ fuel ih =>
+    intro s h h' s' hin e
+    rw [healLoop] at e
+    have hr : ∀ e, e ∈ (replaceCore cfg s (visitAll .heal s h).2.1 (visitAll .heal s h).2.2).1.dirs → DirNamed N (visitAll .heal s h).1 e.2 := by
+      intro e he
+      obtain ⟨d, hd, hn⟩ := round_dirs_named cfg .heal N s h hin e he
+      exact ⟨d, hd, by simpa [dirHidden] using hn⟩
+    split at e
+    · exact ih _ _ _ _ hr e
+    · cases e; exact hr
+
+/-- FULL: after `VisibilitySchemaTransform.on_schema` (healing included) every directive object the result registers has
+    `is_directive_visible(name)`: the hidden directives are gone from `schema.directives` -/
+theorem visibility_hides_directives (cfg : Cfg) (fuel : Nat) (p : VisP) (s : Schema) (h h' : Heap) (s' : Schema)
+    (hw : wfB h s = true) (e : onSchema cfg fuel (.vis p) s h = some (h', s')) :
+    ∀ e', e' ∈ s'.dirs → ∃ d, h'.readDir e'.2 = some d ∧ p.dirVis d.name = true := by
+  have w := wfs_of_wfB hw
+  have hin : ∀ e, e ∈ s.dirs → DirNamed (fun _ => true) h e.2 := by
+    intro e he
+    have hs := w.dirs e he
+    simp only [dirShape] at hs
+    split at hs
+    · rename_i d hd; exact ⟨d, hd, rfl⟩
+    · cases hs
+  have hr := round_dirs_named cfg (.vis p) (fun _ => true) s h hin
+  have hvis : ∀ (hh : Heap) (a : Addr), DirNamed (fun nm => true && !dirHidden (.vis p) nm) hh a → DirNamed p.dirVis hh a := by
+    intro hh a ⟨d, hd, hn⟩
+    exact ⟨d, hd, by simpa [dirHidden] using hn⟩
+  simp only [onSchema, replaceTD] at e
+  split at e
+  · intro e' he'
+    exact healLoop_dirs_named cfg p.dirVis fuel _ _ h' s' (fun x hx => hvis _ _ (hr x hx)) e e' he'
+  · cases e
+    intro e' he'
+    exact hvis _ _ (hr e' he')
+
+/-- hides the directive `lim` (and nothing else) -/
+def hideLim : VisP := { typeVis := fun _ => true, fieldVis := fun _ _ => true, inputVis := fun _ _ => true, dirVis := fun n => n != "lim" }
+
+/-- non-vacuity with a predicate that hides a directive: the source registers `lim`, the transform result registers none -/
+theorem visibility_directive_witness :
+    closedB hDir sDir = true ∧ wfB hDir sDir = true ∧ sDir.dirs.map (·.1) = ["lim"] ∧
+    ((transform Cfg.fixed 8 [.vis hideLim] sDir hDir).map fun r => r.2.dirs.map (·.1)) = some [] := by decide
 
 end PyGql.Props.C14
